@@ -520,6 +520,27 @@ SVla ==        \* T name[len]; with a run-time length (6.7.6.2p5: the length sha
             /\ env' = (S.n :> [obj |-> o, t |-> t]) @@ env
             /\ ck' = Pop /\ CTick /\ UNCHANGED <<cpid, genv, cout, cstatus, cret, depth>>
 
+SVTypedef ==   \* typedef T name[len]; in a block: the lengths are evaluated when the declaration is reached (6.8p3), not when the name is used
+  /\ IsStmt("vtypedef")
+  /\ LET r == Eval(S.len) IN
+       IF ~r.ok THEN Fail(r.why)
+       ELSE IF ~IsInt(r.t) \/ ~FitsNat31(PromV(r)) \/ Lo31(PromV(r)) = 0 \/ Lo31(PromV(r)) > 64 THEN Fail("vla-length")
+       ELSE LET r2 == IF "len2" \in DOMAIN S THEN Eval(S.len2) ELSE r IN
+            IF ~r2.ok THEN Fail(r2.why)
+            ELSE IF ~IsInt(r2.t) \/ ~FitsNat31(PromV(r2)) \/ Lo31(PromV(r2)) = 0 \/ Lo31(PromV(r2)) > 64 THEN Fail("vla-length")
+            ELSE LET et == IF "len2" \in DOMAIN S THEN [k |-> "a", t |-> S.t, n |-> Lo31(PromV(r2))] ELSE S.t
+                     t == [k |-> "a", t |-> et, n |-> Lo31(PromV(r))] IN
+            /\ env' = (S.n :> [obj |-> 0 - 1, t |-> t]) @@ env        \* a type name: never an operand
+            /\ ck' = Pop /\ CTick /\ UNCHANGED <<cpid, genv, mem, cout, cstatus, cret, depth>>
+
+SVlaT ==       \* TypeName name; where TypeName is a variably modified typedef name: the size recorded by SVTypedef
+  /\ IsStmt("vlat")
+  /\ IF S.tn \notin DOMAIN env THEN Fail("unknown-typedef")
+     ELSE LET t == env[S.tn].t  o == NewObj IN
+          /\ mem' = (o :> [val |-> ZeroOf(t), live |-> TRUE]) @@ mem
+          /\ env' = (S.n :> [obj |-> o, t |-> t]) @@ env
+          /\ ck' = Pop /\ CTick /\ UNCHANGED <<cpid, genv, cout, cstatus, cret, depth>>
+
 SAlloca ==     \* T *p = __builtin_alloca(len * sizeof(T)): storage that lives until the function returns
   /\ IsStmt("alloca")
   /\ LET r == Eval(S.len) IN
@@ -710,7 +731,7 @@ SMain ==        \* after the globals: enter main's body with the global environm
   /\ genv' = env
   /\ CTick /\ UNCHANGED <<cpid, env, mem, cout, cstatus, cret, depth>>
 
-CNext == SExpr \/ SAsg \/ SObs \/ SDecl \/ SStatic \/ SVla \/ SAlloca \/ SBlock \/ SSeq \/ SIf \/ SLoop \/ SLoopTest \/ SNop \/ SCaseLabel \/ SBreak \/ SContinue
+CNext == SExpr \/ SAsg \/ SObs \/ SDecl \/ SStatic \/ SVla \/ SVTypedef \/ SVlaT \/ SAlloca \/ SBlock \/ SSeq \/ SIf \/ SLoop \/ SLoopTest \/ SNop \/ SCaseLabel \/ SBreak \/ SContinue
          \/ SSwitch \/ SSwitchEnd \/ SGoto \/ SLabel \/ SVaArg \/ SCall \/ SCallEnd \/ SReturn \/ SRetAsg \/ SEnd \/ COutOfFuel \/ SMain
 
 CSpec == CInit /\ [][CNext]_cvars
